@@ -302,6 +302,21 @@ def _saver(ctx, cfg):
                         vc.check("ModelSaver/never writes attributes of the training state" + tag, st.writes == [])
                     vc.explore(run, "ModelSaver %s %s %s" % (meta_kind, only, initial))
 
+        def run_names():
+            # the file name is the caller's format string: whatever spec it carries is applied to the epoch number itself
+            for fmt, ep, want in (("ck_{:04}.pt", 2, "ck_0002.pt"), ("ck_{:03d}.pt", 12, "ck_012.pt"), ("e{:>5}.pt", 7, "e    7.pt"), ("{:x}.pt", 255, "ff.pt"),
+                                  ("plain_{}.pt", 3, "plain_3.pt"), ("{0}_{0}.pt", 4, "4_4.pt")):
+                sv = SB(1, tmp, fmt, save_initial=False, metadata=None, metadata_only=False)
+                st = State(stop=False)
+                try:
+                    sv.on_epoch_end(st, ep)
+                    why = str(st.saved)
+                except Exception as e:            # noqa: BLE001 - a format the caller may use must not make the save fail
+                    why = "%s: %s" % (type(e).__name__, e)
+                vc.check("ModelSaver/file named file_name.format(epoch) with the epoch as an integer[%s]" % fmt,
+                         len(st.saved) == 1 and st.saved[0][0] == os.path.join(sv.path, want), why)
+        vc.explore(run_names, "ModelSaver/names")
+
         def run_exc():
             # history: a save through the callback raised (metadata with a reserved key refused by save(), a failing
             # metadata function, a full disk) and the caller caught the error: the same ModelSaver keeps saving afterwards,
